@@ -1,12 +1,14 @@
 #!/bin/bash
-# usage: tools/regress_parallel.sh [lanes]   — like regress.sh (every seeded mutant must be reported, every benign refactoring must
+# usage: tools/regress_parallel.sh [lanes] [name-pattern] [tier]   — like regress.sh (every seeded mutant must be reported, every benign refactoring must
 # pass, quick tier) but in parallel lanes: each lane has its own scratch worktree of /repo's HEAD and its own copy of /verif (with the
 # built lake project) under /tmp/regress_lane_<k>; the checks are pointed at the lane's worktree (VERIF_REPO + PYTHONPATH).  /repo
 # itself is not touched.  Everything under /tmp/regress_lane_* is removed at the end.
 lanes=${1:-6}
+pattern=${2:-.}
+tier=${3:-quick}
 cd /verif
-ls seeded | sed 's/^/seeded /' > /tmp/regress_items.txt
-ls benign | sed 's/^/benign /' >> /tmp/regress_items.txt
+ls seeded | grep -E "$pattern" | sed 's/^/seeded /' > /tmp/regress_items.txt
+ls benign | grep -E "$pattern" | sed 's/^/benign /' >> /tmp/regress_items.txt
 rm -f /tmp/regress_out_*.log
 for k in $(seq 1 $lanes); do
   (
@@ -17,7 +19,7 @@ for k in $(seq 1 $lanes); do
     awk -v k=$k -v n=$lanes 'NR % n == k % n' /tmp/regress_items.txt | while read kind name; do
       c=${name%%-*}
       git -C $L/repo apply /verif/$kind/$name/patch.diff 2>/dev/null || { echo "$name: PATCH DOES NOT APPLY"; continue; }
-      r=$(cd $L/verif && VERIF_REPO=$L/repo PYTHONPATH=$L/repo timeout 900 ./check $c quick 2>&1 | grep -E "^(OK|VIOLATION|INFRA)" | head -1 | cut -c1-100)
+      r=$(cd $L/verif && VERIF_REPO=$L/repo PYTHONPATH=$L/repo timeout 2400 ./check $c $tier 2>&1 | grep -E "^(OK|VIOLATION|INFRA)" | head -1 | cut -c1-100)
       git -C $L/repo checkout -- . ; git -C $L/repo clean -fdq
       if [ $kind = seeded ]; then
         case "$r" in VIOLATION*) echo "$name: detected ($r)";; *) echo "$name: MISSED ($r)";; esac
